@@ -64,10 +64,16 @@ Proof.
 Qed.
 
 (* ------------------------------------------------------------------ operation sequences *)
+(** the public rename_tensor = the private worker on everything but the virtual tensor *)
+Lemma rename_tensor_pub n a c n' : rename_tensor n a c = Some n' -> a <> VT /\ rename_tensor_priv n a c = Some n'.
+Proof.
+  unfold rename_tensor. destruct (Z.eqb_spec a VT); [discriminate|]. auto.
+Qed.
+
 Inductive sop :=
 | SRenT (a c : Z)
 | SRenB (a c : Z)
-| STrans (axes : list nat)
+| STrans (axes : list Z)
 | SMerge (o : net) (joins : list (nat * nat)) (ordT ordB : list Z).
 
 Definition sstep (n : net) (o : sop) : option net :=
@@ -80,57 +86,52 @@ Definition sstep (n : net) (o : sop) : option net :=
 (** a refused operation (ValueError) leaves the network as it is *)
 Definition apply_op (n : net) (o : sop) : net := match sstep n o with Some n' => n' | None => n end.
 
-(** what the caller has to respect (the code validates none of these):
-    the virtual tensor is not renamed, a transposition is a permutation of all open axes,
-    the second operand of a merge is consistent and joined axes have equal dimension *)
-Definition op_ok (n : net) (o : sop) : Prop :=
+(** the only thing the caller has to respect: the second operand of a merge is itself a
+    consistent network.  Everything else is validated by the code (renaming the virtual
+    tensor, axes that are not a permutation of all open axes, joins of unequal dimension or out
+    of range are refused). *)
+Definition op_ok (o : sop) : Prop :=
   match o with
-  | SRenT a _ => a <> VT
-  | SRenB _ _ => True
-  | STrans axes => is_perm_of axes n
-  | SMerge o joins _ _ => WF o /\ joins_dim_ok n o joins
+  | SMerge o _ _ _ => WF o
+  | _ => True
   end.
-Fixpoint guarded (n : net) (ops : list sop) : Prop :=
-  match ops with
-  | [] => True
-  | o :: r => op_ok n o /\ guarded (apply_op n o) r
-  end.
+Definition operands_consistent (ops : list sop) : Prop := forall o, In o ops -> op_ok o.
 
-Theorem sstep_WF n o n' : WF n -> op_ok n o -> sstep n o = Some n' -> WF n'.
+Theorem sstep_WF n o n' : WF n -> op_ok o -> sstep n o = Some n' -> WF n'.
 Proof.
   intros [W HV] G H. destruct o as [a c|a c|axes|o joins ordT ordB]; cbn [sstep op_ok] in *.
-  - split; [eapply rename_tensor_WF0; eauto|].
-    destruct (rename_tensor_keys n a c n' W H) as [_ [_ [K _]]]. rewrite K. apply in_or_app. left.
+  - destruct (rename_tensor_pub n a c n' H) as [Ha Hp].
+    split; [eapply rename_tensor_WF0; eauto|].
+    destruct (rename_tensor_keys n a c n' W Hp) as [_ [_ [K _]]]. rewrite K. apply in_or_app. left.
     apply filter_In. split; [assumption|]. apply negb_true_iff, Z.eqb_neq. congruence.
   - split; [eapply rename_bond_WF0; eauto|].
     destruct (rename_bond_keys n a c n' W H) as [_ [_ [_ K]]]. rewrite K. assumption.
   - split; [eapply transpose_WF0; eauto|].
     destruct (transpose_spec n axes n' H) as [t [Ht [_ [_ ->]]]]. cbn [tensors].
     rewrite dkeys_dset_in; assumption.
-  - destruct G as [Wo JD]. apply (merge_WF n o joins ordT ordB n'); [split; assumption | exact Wo | exact JD | exact H].
+  - apply (merge_WF n o joins ordT ordB n'); [split; assumption | exact G | exact H].
 Qed.
 
-Theorem apply_op_WF n o : WF n -> op_ok n o -> WF (apply_op n o).
+Theorem apply_op_WF n o : WF n -> op_ok o -> WF (apply_op n o).
 Proof.
   intros W G. unfold apply_op. destruct (sstep n o) eqn:E; [eapply sstep_WF; eauto | assumption].
 Qed.
 
 (** from any consistent start, along any sequence *)
-Theorem sequence_WF ops : forall n, WF n -> guarded n ops -> WF (fold_left apply_op ops n).
+Theorem sequence_WF ops : forall n, WF n -> operands_consistent ops -> WF (fold_left apply_op ops n).
 Proof.
-  induction ops as [|o ops IH]; intros n W G; [assumption|]. cbn [fold_left]. destruct G as [G1 G2].
-  apply IH; [apply apply_op_WF; assumption | assumption].
+  induction ops as [|o ops IH]; intros n W G; [assumption|]. cbn [fold_left].
+  apply IH; [apply apply_op_WF; [assumption | apply G; left; reflexivity] | intros o' Ho'; apply G; right; exact Ho'].
 Qed.
 
 Corollary sequence_consistent ops n :
-  WF n -> guarded n ops -> is_consistent (fold_left apply_op ops n) = true.
+  WF n -> operands_consistent ops -> is_consistent (fold_left apply_op ops n) = true.
 Proof. intros W G. apply WF_is_consistent. apply sequence_WF; assumption. Qed.
 
 (** every prefix of the sequence is consistent as well *)
 Corollary sequence_consistent_prefix ops n k :
-  WF n -> guarded n ops -> is_consistent (fold_left apply_op (firstn k ops) n) = true.
+  WF n -> operands_consistent ops -> is_consistent (fold_left apply_op (firstn k ops) n) = true.
 Proof.
   intros W G. apply sequence_consistent; [assumption|].
-  revert n k W G. induction ops as [|o ops IH]; intros n k W G; destruct k; cbn; auto.
-  destruct G as [G1 G2]. split; [assumption|]. apply IH; [apply apply_op_WF; assumption | assumption].
+  intros o Ho. apply G. rewrite <- (firstn_skipn k ops). apply in_or_app. left. exact Ho.
 Qed.
